@@ -76,8 +76,23 @@ def check_scenario(sc):
             os.chdir(elsewhere)
             core.Flow(core.from_state(st), core.dataflows.dump_to_path('.', format=fmt, add_filehash_to_path=True)).process()
             tag = '/cwd-holds-copy'
+        out_arg = root
+        if sc.get('relative_chdir'):
+            # the dumper is built with a relative out_path in one directory and executed after the process moved to another
+            # one: descriptor and data files must still end up together (root is where they land)
+            built_in = os.path.join(d, 'built-here')
+            run_in = os.path.join(d, 'run-here')
+            os.makedirs(built_in)
+            os.makedirs(run_in)
+            os.chdir(built_in)
+            out_arg = 'out'
+            root = os.path.join(run_in, 'out')
+            rec = fsrec.Recorder(d)
+            tag = '/relative-path-chdir'
         flow = core.Flow(source,
-                         core.dataflows.dump_to_path(root, format=fmt, add_filehash_to_path=filehash, **kw), *tail)
+                         core.dataflows.dump_to_path(out_arg, format=fmt, add_filehash_to_path=filehash, **kw), *tail)
+        if sc.get('relative_chdir'):
+            os.chdir(run_in)
         if sc.get('second_run'):
             # the same Flow (hence the same dumper object) has already been executed once; its output was removed since
             import shutil
@@ -91,6 +106,18 @@ def check_scenario(sc):
             os.chdir(cwd_before)
         states = rec.crash_states()
         seen = set()
+        if sc.get('relative_chdir'):
+            # the recorder watched the whole scratch directory: look at each directory that holds a descriptor
+            def split(cs):
+                files, dirs = cs
+                outs = {}
+                for p_, data in files.items():
+                    top = p_.split(os.sep)
+                    if 'out' in top:
+                        i = top.index('out')
+                        outs.setdefault(os.sep.join(top[:i + 1]), {})[os.sep.join(top[i + 1:])] = data
+                return [(v, frozenset()) for v in outs.values()] or [({}, frozenset())]
+            states = [(label + ' [%d]' % k, sub) for label, cs in states for k, sub in enumerate(split(cs))]
         for label, cs in states:
             what, outcome = check_state(cs)
             out['n'] += 1
@@ -100,7 +127,7 @@ def check_scenario(sc):
                 seen.add('v')
                 out['viol'].append(('descriptor-before-data/%s%s' % (fmt, tag), 'dump_to_path(%s%s)%s of shape %r, kill %s: %s' %
                                     (fmt, ', add_filehash_to_path' if filehash else '',
-                                     ' followed by a step that requests all resources before reading rows' if tag else '', shape, label, what),
+                                     ' followed by a step that requests all resources before reading rows' if sc.get('eager') else tag.replace('/', ' '), shape, label, what),
                                     dict(sc, label=label)))
         # interruptions that unwind through Python: OSError at the k-th fs operation, the source raising at row j
         import gc
@@ -145,7 +172,7 @@ def check_scenario(sc):
                 return core.Flow(core.from_state(scenario_state(shape, nested), on_pull=boom),
                                  core.dataflows.dump_to_path(root2, format=fmt, add_filehash_to_path=filehash, **kw), *tail)
             after_failure('source raising at row %d of %d' % (j, total), mk)
-        final_what, final_outcome = check_state(rec.points[-1][1])
+        final_what, final_outcome = check_state(fsrec._snapshot(root) if sc.get('relative_chdir') else rec.points[-1][1])
         if final_outcome != 'descriptor-complete' and not seen:
             # the completed dump itself must satisfy the marker reading (else the oracle would be vacuous)
             out['viol'].append(('final-state/%s%s' % (fmt, '+filehash' if filehash else ''),
@@ -173,6 +200,8 @@ def scenarios(tier):
     for fmt in ('csv', 'json'):
         for sh in ([1, 1], [3, 0, 1]):
             out.append({'shape': sh, 'format': fmt, 'filehash': False, 'nested': False, 'second_run': True})
+    for fmt in ('csv', 'json'):
+        out.append({'shape': [1, 1], 'format': fmt, 'filehash': False, 'nested': False, 'relative_chdir': True})
     for fmt in ('csv', 'json'):
         for sh in ([1], [3, 1]):
             out.append({'shape': sh, 'format': fmt, 'filehash': False, 'nested': False, 'redump': True})
@@ -204,5 +233,5 @@ def run(run):
 
 
 def replay(w):
-    sc = {k: w[k] for k in ('shape', 'format', 'filehash', 'nested', 'counters', 'eager', 'second_run', 'redump', 'cwd_copy') if k in w}
+    sc = {k: w[k] for k in ('shape', 'format', 'filehash', 'nested', 'counters', 'eager', 'second_run', 'redump', 'cwd_copy', 'relative_chdir') if k in w}
     return check_scenario(sc)['viol']
